@@ -10,6 +10,7 @@ package main
 import (
 	"bufio"
 	"context"
+	"errors"
 	"database/sql"
 	"database/sql/driver"
 	"encoding/hex"
@@ -30,7 +31,7 @@ import (
 // scanLeaf: types whose pointer implements sql.Scanner are leaves in the scan
 // view: (identity of the raw value their Scan stored, IsZero).
 func scanLeaf(v reflect.Value) (uint64, bool) {
-	if v.Kind() == reflect.Pointer || !reflect.PointerTo(v.Type()).Implements(scannerIface) {
+	if v.Kind() == reflect.Pointer || !v.CanInterface() || !reflect.PointerTo(v.Type()).Implements(scannerIface) {
 		return 0, false
 	}
 	switch x := v.Interface().(type) {
@@ -38,8 +39,18 @@ func scanLeaf(v reflect.Value) (uint64, bool) {
 		return uint64(x.cents), true
 	case sql.NullInt64:
 		return uint64(x.Int64), true
+	case Counted:
+		return uint64(x.V), true
 	}
 	return 0, true
+}
+
+// scanLeafZero: whether a Scanner-typed leaf holds "nothing" (what the model's zero flag means)
+func scanLeafZero(v reflect.Value) bool {
+	if c, ok := v.Interface().(Counted); ok {
+		return c.V == 0
+	}
+	return v.IsZero()
 }
 
 // dumpDestVal: dumpVal with scanner types as leaves.
@@ -48,7 +59,7 @@ func dumpDestVal(v reflect.Value) string {
 		return "(leaf 0 1)"
 	}
 	if id, ok := scanLeaf(v); ok {
-		return fmt.Sprintf("(leaf %d %d)", id, b2i(v.IsZero()))
+		return fmt.Sprintf("(leaf %d %d)", id, b2i(scanLeafZero(v)))
 	}
 	switch v.Kind() {
 	case reflect.Struct:
@@ -104,7 +115,7 @@ func printDest(v reflect.Value) string {
 		return "z"
 	}
 	if id, ok := scanLeaf(v); ok {
-		if v.IsZero() {
+		if scanLeafZero(v) {
 			return "z"
 		}
 		return "l" + strconv.FormatUint(id, 10)
@@ -233,6 +244,7 @@ type scanCase struct {
 	colSeed uint64   // seed for the permutation / foreign columns / cells
 	cols    []string // filled by the driver callback
 	cells   []string // "null" or the id
+	rowCells [][]string // GetAll: the cells of every row
 }
 
 var foreignNames = []string{"0", "1", "7", "+2", "id", "name", "x", "count(*)", "_sqlair_", "_sqlair_x", "_sqlair_-1", "_SQLAIR_0", "sqlair_0", "_sqlair_1x", "col", ""}
@@ -420,6 +432,227 @@ func (sg *scanGen) next() scanCase {
 	return c
 }
 
+// ------------------------------------------------------- GetAll, values --
+
+type allDest struct {
+	ptr   reflect.Value // pointer to the slice
+	prior int           // elements present before the call
+	sexp  string        // (struct pt t) | (ptr pt t) | (map mt)
+}
+
+// sliceDestFor builds a destination slice for the named zoo type with 0-2 prior elements.
+func (sg *scanGen) sliceDestFor(env *typeEnv, name string) allDest {
+	r := sg.g.r
+	t := reflect.TypeOf(zooByName(name))
+	var st reflect.Type
+	var sx string
+	switch {
+	case t.Kind() == reflect.Map:
+		st = reflect.SliceOf(t)
+		sx = fmt.Sprintf("(map %d)", env.id(t))
+	case r.chance(1, 2):
+		st = reflect.SliceOf(t)
+		sx = fmt.Sprintf("(struct %d %d)", env.id(reflect.PointerTo(t)), env.id(t))
+	default:
+		st = reflect.SliceOf(reflect.PointerTo(t))
+		sx = fmt.Sprintf("(ptr %d %d)", env.id(reflect.PointerTo(t)), env.id(t))
+	}
+	p := reflect.New(st)
+	n := r.intn(3)
+	sl := reflect.MakeSlice(st, 0, n+r.intn(3))
+	for i := 0; i < n; i++ {
+		el := reflect.New(st.Elem()).Elem()
+		switch el.Kind() {
+		case reflect.Pointer:
+			np := reflect.New(t)
+			sg.g.f.fill(np.Elem(), 0)
+			el.Set(np)
+		case reflect.Map:
+			el.Set(reflect.MakeMap(t))
+		default:
+			sg.g.f.fill(el, 0)
+		}
+		sl = reflect.Append(sl, el)
+	}
+	p.Elem().Set(sl)
+	return allDest{ptr: p, prior: n, sexp: sx}
+}
+
+// countedFresh reports a Counted field of v that did not see exactly one Scan.
+func countedFresh(v reflect.Value) string {
+	switch v.Kind() {
+	case reflect.Pointer:
+		if !v.IsNil() {
+			return countedFresh(v.Elem())
+		}
+	case reflect.Struct:
+		if c, ok := v.Interface().(Counted); ok {
+			if c.N > 1 {
+				return fmt.Sprintf("a Scanner field of an appended element saw %d Scan calls (a fresh element sees at most one)", c.N)
+			}
+			return ""
+		}
+		for i := 0; i < v.NumField(); i++ {
+			if v.Type().Field(i).IsExported() {
+				if m := countedFresh(v.Field(i)); m != "" {
+					return m
+				}
+			}
+		}
+	}
+	return ""
+}
+
+type scanAllObs struct {
+	line   string
+	viols  []string // C15 / C06 oracle failures
+	panicd string
+}
+
+func implScanAll(c *scanCase, dests []allDest, nrows int) (o scanAllObs) {
+	defer func() {
+		if r := recover(); r != nil {
+			o = scanAllObs{line: "PANIC " + fmt.Sprintf("%q", fmt.Sprint(r)), panicd: fmt.Sprint(r)}
+		}
+	}()
+	stmt, err := sqlair.Prepare(c.query, c.samples...)
+	if err != nil {
+		msg := err.Error()
+		if strings.HasPrefix(msg, "cannot parse expression") {
+			return scanAllObs{line: "PARSE-ERR"}
+		}
+		return scanAllObs{line: "PREPARE-ERR " + classifyBindErr(msg)}
+	}
+	sqldb, f := openFake()
+	defer dropFakeDB(f.name)
+	defer sqldb.Close()
+	sqldb.SetMaxOpenConns(1)
+	f.rowsFor = func(sqlText string, _ []driver.NamedValue) *rowsScript {
+		seen := map[string]bool{}
+		n := 0
+		for _, m := range reAlias.FindAllStringSubmatch(sqlText, -1) {
+			if !seen[m[1]] {
+				seen[m[1]] = true
+				n++
+			}
+		}
+		cols, row, cells := colScript(c.mode, c.colSeed, n)
+		c.cols = cols
+		rows := [][]driver.Value{}
+		c.rowCells = nil
+		rr := newRng(c.colSeed + 99)
+		for i := 0; i < nrows; i++ {
+			if i > 0 {
+				// further rows: fresh cells for the same columns
+				row = nil
+				cells = nil
+				next := 30 + 20*i
+				for range cols {
+					if rr.chance(1, 6) {
+						row = append(row, nil)
+						cells = append(cells, "null")
+					} else {
+						row = append(row, int64(next))
+						cells = append(cells, strconv.Itoa(next))
+						next++
+					}
+				}
+			}
+			rows = append(rows, row)
+			c.rowCells = append(c.rowCells, cells)
+		}
+		return &rowsScript{Cols: cols, Rows: rows, FailAt: -1}
+	}
+	db := sqlair.NewDB(sqldb)
+	var args []any
+	var before []string
+	for _, d := range dests {
+		args = append(args, d.ptr.Interface())
+		before = append(before, printDest(d.ptr.Elem()))
+	}
+	err = db.Query(context.Background(), stmt, c.inargs...).GetAll(args...)
+	ran := false
+	for _, ev := range f.log() {
+		if ev.Kind == "query" || ev.Kind == "exec" {
+			ran = true
+		}
+	}
+	if err != nil {
+		// all or nothing: every slice as it was
+		for i, d := range dests {
+			if printDest(d.ptr.Elem()) != before[i] {
+				o.viols = append(o.viols, "slice changed although GetAll returned an error: "+before[i]+" -> "+printDest(d.ptr.Elem()))
+			}
+		}
+		msg := err.Error()
+		switch {
+		case errors.Is(err, sqlair.ErrNoRows):
+			o.line = "NOROWS"
+		case !ran && strings.Contains(msg, "output variables provided but not referenced"):
+			o.line = "NO-OUTPUTS"
+		case !ran:
+			o.line = "QUERY-ERR " + classifyBindErr(msg)
+		default:
+			o.line = "GETALL-ERR " + classifyScanErr(msg)
+		}
+		return o
+	}
+	// success: prior elements untouched, one element per row appended
+	parts := []string{"GETALL-OK"}
+	for r := 0; r < nrows; r++ {
+		var els []string
+		for _, d := range dests {
+			sl := d.ptr.Elem()
+			if sl.Len() != d.prior+nrows {
+				o.viols = append(o.viols, fmt.Sprintf("slice has %d elements, want %d prior + %d rows", sl.Len(), d.prior, nrows))
+				els = append(els, "?")
+				continue
+			}
+			el := sl.Index(d.prior + r)
+			els = append(els, printDest(el))
+			if m := countedFresh(el); m != "" {
+				o.viols = append(o.viols, m)
+			}
+		}
+		parts = append(parts, "("+strings.Join(els, " ")+")")
+	}
+	for i, d := range dests {
+		sl := d.ptr.Elem()
+		if sl.Len() >= d.prior && printDest(sl.Slice(0, d.prior)) != printDestPrefix(before[i], d.prior) {
+			o.viols = append(o.viols, "elements already present were changed")
+		}
+	}
+	o.line = strings.Join(parts, " ")
+	return o
+}
+
+// printDestPrefix: the print of the first n elements of a slice print "v(a,b,c)" (top-level commas only)
+func printDestPrefix(p string, n int) string {
+	if n == 0 {
+		return "v()"
+	}
+	if !strings.HasPrefix(p, "v(") {
+		return p
+	}
+	depth, cnt := 0, 0
+	for i := 2; i < len(p)-1; i++ {
+		switch p[i] {
+		case '(':
+			depth++
+		case ')':
+			depth--
+		case ',':
+			if depth == 0 {
+				cnt++
+				if cnt == n {
+					return p[:i] + ")"
+				}
+			}
+		}
+	}
+	return p
+}
+
 type scanObs struct {
 	line     string
 	panicked string
@@ -518,6 +751,7 @@ type scanStats struct {
 	Cells      int            `json:"cells"`
 	Foreign    int            `json:"foreign_columns"`
 	Permuted   int            `json:"ok_with_permuted_columns"`
+	GetAll     int            `json:"getall_value_cases"`
 	Samples    []string       `json:"samples"`
 	Other      int            `json:"unknown_error_wordings"`
 }
@@ -552,6 +786,69 @@ func cmdScan(args []string) int {
 		env := newTypeEnv()
 		ss := dumpSamples(env, c.samples)
 		as := dumpArgs(env, c.inargs)
+		if i%3 == 2 {
+			// GetAll at value level: destination slices for the output types of the statement
+			var dests []allDest
+			var sx []string
+			names := map[string]bool{}
+			for _, m := range reOutType.FindAllStringSubmatch(c.query, -1) {
+				names[m[1]] = true
+			}
+			for _, name := range sortedKeys(names) {
+				ok := false
+				for _, z := range zooSamples {
+					if z.name == name {
+						k := reflect.TypeOf(z.sample).Kind()
+						ok = k == reflect.Struct || k == reflect.Map
+					}
+				}
+				if !ok || r.chance(1, 30) {
+					continue
+				}
+				d := sg.sliceDestFor(env, name)
+				dests = append(dests, d)
+				sx = append(sx, d.sexp)
+			}
+			if c.mode >= 1 && c.mode <= 5 && r.chance(1, 2) {
+				c.mode = 0
+			}
+			nrows := r.intn(4)
+			currentCase.Store(c.query)
+			caseStart.Store(time.Now().UnixNano())
+			o := implScanAll(&c, dests, nrows)
+			caseStart.Store(0)
+			var cols, rws []string
+			for _, cn := range c.cols {
+				cols = append(cols, hx(cn))
+			}
+			for _, rc := range c.rowCells {
+				rws = append(rws, "("+strings.Join(rc, " ")+")")
+			}
+			line := fmt.Sprintf("(scanall x%s %s %s %s (%s) (%s) (%s))", hex.EncodeToString([]byte(c.query)), env.dump(), ss, as,
+				strings.Join(cols, " "), strings.Join(rws, " "), strings.Join(sx, " "))
+			fmt.Fprintln(cw, line)
+			fmt.Fprintln(iw, o.line)
+			qh := hx(c.query)
+			if o.panicd != "" {
+				addViol(violation{"C18", "getall-panic", qh, o.panicd})
+			}
+			for _, m := range o.viols {
+				addViol(violation{"C15", "getall-values", qh, m})
+				addViol(violation{"C06", "getall-values", qh, m})
+			}
+			st.Cases++
+			st.GetAll++
+			f := strings.Fields(o.line)
+			st.Results[f[0]]++
+			if !seen[line] {
+				seen[line] = true
+				st.Distinct++
+				if f[0] == "GETALL-OK" || f[0] == "GETALL-ERR" || f[0] == "NOROWS" {
+					st.NonTrivial++
+				}
+			}
+			continue
+		}
 		ds := dumpDestArgs(env, c.dests) // before the call
 		currentCase.Store(c.query)
 		caseStart.Store(time.Now().UnixNano())
